@@ -31,6 +31,9 @@ Visible(cf, k, v) ==
 Init == l = 1 /\ ref = EmptyMap
 
 ev == Trace[l]
+\* A reply that contradicts the reference is reported (with the line and the expected reply) and the
+\* trace continues, so one run reports every contradicting read of every concatenated trace.
+Expect(got, want) == got = want \/ (got # want /\ PrintT(<<"MISMATCH", l, want>>))
 IsEvent(name) == l <= Len(Trace) /\ ev.e = name /\ l' = l + 1
 
 Reset == IsEvent("Reset") /\ ref' = EmptyMap
@@ -46,18 +49,18 @@ DelV == IsEvent("DelV") /\ WriteAt(ev.cf, ev.k, ev.ver, TOMB)
 \* plain read: newest write wins; deleted => not found
 Get == /\ IsEvent("Get")
        /\ LET vis == Visible(ev.cf, ev.k, MAXV)
-          IN ev.r = (IF vis.found /\ vis.val # TOMB THEN vis.val ELSE NOTFOUND)
+          IN Expect(ev.r, IF vis.found /\ vis.val # TOMB THEN vis.val ELSE NOTFOUND)
        /\ UNCHANGED ref
 
 \* versioned read: the stored entry (a tombstone is an entry) at the greatest version <= v
 GetV == /\ IsEvent("GetV")
         /\ LET vis == Visible(ev.cf, ev.k, ev.ver)
-           IN IF vis.found THEN ev.r = vis.val /\ ev.rver = vis.ver
-                           ELSE ev.r = NOTFOUND
+           \* the entry is identified by its (unique) value / tombstone; the reply's Version field is not bound
+           IN Expect(ev.r, IF vis.found THEN vis.val ELSE NOTFOUND)
         /\ UNCHANGED ref
 
 \* maintenance never changes what reads return
-Maint == IsEvent("Maint") /\ ev.ok /\ UNCHANGED ref
+Maint == IsEvent("Maint") /\ Expect(ev.ok, TRUE) /\ UNCHANGED ref
 
 Next == Reset \/ Set \/ Del \/ SetV \/ DelV \/ Get \/ GetV \/ Maint
 Spec == Init /\ [][Next]_vars
